@@ -100,6 +100,13 @@ func TestProp(t *testing.T) {
 		rng := rand.New(rand.NewSource(caseSeed(seed, prop, i)))
 		body := func(t *testing.T) {
 			def.Run(t, rng, rec, tier, i)
+			if rec.Poisoned() {
+				// the bubble cannot be wound down (see Rec.Violate): report and abandon the process;
+				// the driver restarts the remaining cases of this worker in a fresh one
+				emit(out, "RESULT "+rec.Result(i, seed, true).JSON())
+				emit(out, fmt.Sprintf("POISONED %d", i))
+				os.Exit(0)
+			}
 			if def.Bubble {
 				// goroutines of the library that are still alive although the case closed every socket
 				// and client: report them instead of letting the bubble die with a bare deadlock panic
